@@ -5,6 +5,8 @@
 package prefix
 
 //@ guard Handler.Records by Mutex
+// concurrency (C16): the lease table is whatever other goroutines left when the lock is acquired
+//@ protects Handler.Mutex: mapc(self.Records)
 
 // key of the lease table: the wire form of the client identifier, which identifies the client
 // (C08: leases of different client identifiers are kept apart)
